@@ -72,6 +72,23 @@ let model = function
         | Ok res when kind = "parsel" -> obs_result res ^ typed_field res
         | _ when kind = "hist" -> obs_res r ^ " # " ^ obs_res (snd (parse d e (init_st d) (strs_of_wire aw)))
         | _ -> obs_res r) rs argvs)
+  | "steps" :: dw :: ew :: steps when steps <> [] ->
+    (* a:<argv> parse (long-lived object # fresh parser) | e:<env> | d:<decl>: every call starts with prepare(), so the
+       object state carried between the steps is irrelevant (C14_history_independent); the model threads it anyway where the
+       declaration is unchanged *)
+    let d = ref (parse_decl dw) and e = ref (parse_env ew) in
+    let st = ref (init_st !d) in
+    let outs = ref [] in
+    List.iter (fun s ->
+        let arg = String.sub s 2 (String.length s - 2) in
+        match s.[0] with
+        | 'e' -> e := parse_env arg
+        | 'd' -> d := parse_decl arg; st := init_st !d
+        | 'a' -> let (st', r) = parse !d !e !st (strs_of_wire arg) in
+                 st := st';
+                 outs := (obs_res r ^ " # " ^ obs_res (snd (parse !d !e (init_st !d) (strs_of_wire arg)))) :: !outs
+        | _ -> failwith "step") steps;
+    String.concat " | " (List.rev !outs)
   | _ -> "BADCASE"
 
 (* the oracle judges each call's observation against the SPEC (explain >>= wf_items >>= assignment) of that
@@ -119,5 +136,23 @@ let oracle case obs =
                                               | Err _ -> o = expect)
         | "C14" -> (match fresh with Some f -> o = f | None -> o = expect)
         | _ -> o = expect) argvs obss
+  | "steps" :: dw :: ew :: steps when steps <> [] ->
+    let d = ref (parse_decl dw) and e = ref (parse_env ew) in
+    let obss = ref (split_obs obs) in
+    List.for_all (fun s ->
+        let arg = String.sub s 2 (String.length s - 2) in
+        match s.[0] with
+        | 'e' -> e := parse_env arg; true
+        | 'd' -> d := parse_decl arg; true
+        | 'a' -> (match !obss with
+                  | [] -> false
+                  | o :: rest ->
+                    obss := rest;
+                    let expect = obs_res (spec !d !e (strs_of_wire arg)) in
+                    (match Str_split.find_sub o " # " with
+                     | Some i -> let a = String.sub o 0 i and f = String.sub o (i + 3) (String.length o - i - 3) in
+                                 a = f && (prop = "C14" || f = expect)
+                     | None -> false))
+        | _ -> false) steps && !obss = []
   | _ -> false
 let () = run_driver model oracle
